@@ -43,6 +43,9 @@ Silent == UNCHANGED <<tid, l, prog>>
 \* (the event says whether the invocation payload held at most the EXECUTION operation)
 TInvStart == IsEv("InvStart") /\ StartInvocation /\ lg'.small = (Ev.o = "small") /\ Consume
 
+\* an invocation whose history could not be loaded (a page fetch failed): started and ended with a raise in one step
+TInvLoadFail == IsEv("InvLoadFail") /\ StartInvocationLoadFail /\ Consume
+
 \* a context.logger call between operations, emitted ("log") or suppressed ("nolog")
 TLog == /\ IsEv("Log") /\ pc = Ev.i /\ LogStep /\ last'[2] = Ev.cls /\ Consume
 
@@ -90,7 +93,7 @@ SilentUser ==
 
 TraceDone == l = Len(Tr) + 1 /\ UNCHANGED tvars
 
-TraceNext == TInvStart \/ TLog \/ TApi \/ TApiEmpty \/ TFnEnter \/ TDeliver \/ TEnvTimer \/ TEnvExt \/ TInvEnd \/ SilentUser \/ TraceDone
+TraceNext == TInvStart \/ TInvLoadFail \/ TLog \/ TApi \/ TApiEmpty \/ TFnEnter \/ TDeliver \/ TEnvTimer \/ TEnvExt \/ TInvEnd \/ SilentUser \/ TraceDone
 
 TraceSpec == TraceInit /\ [][TraceNext]_tvars
 
